@@ -6,6 +6,7 @@ Line protocol for C16.
 
   c16.docx <document.xml tree> <styles.xml tree | ->
   c16.odt  <content.xml tree>  <styles.xml tree | ->
+  c16.odtcols <table:table tree>      reply: number of column widths (`len(ParsedTable.ColWidths)`)
 
 tree := '(' hex(tag) { '@' hex(attr) '=' hex(value) } { tree | '\'' hex(text) } ')'
 (hex of the empty string is "-").
@@ -114,6 +115,10 @@ def handle (op : String) (args : List String) : String :=
       let els := Odt.elements d st
       s!"{els.length} {";".intercalate (els.map dumpOdt)}"
     | _, _ => "bad-op"
+  | "c16.odtcols", [tbl] =>
+    match parseTree tbl with
+    | some t => s!"{Odt.columnCount t}"
+    | none => "bad-op"
   | _, _ => "bad-op"
 
 end Tabula.C16H
